@@ -125,7 +125,9 @@ func (srv *Session) consumeSingleCommand(ctx context.Context, reader *buffer.Rea
 	}
 
 	srv.logger.Debug("<- incoming command", slog.Int("length", length), slog.String("type", t.String()))
+	verifPoint("handler:start")
 	err = srv.handleCommand(ctx, conn, t, reader, writer)
+	verifPoint("handler:end")
 	srv.wg.Done()
 	return err
 }
